@@ -533,6 +533,7 @@ func (e *Enc) assumeWF(term string, t types.Type, st *State) {
 		_ = u
 		e.assume(fmt.Sprintf("(select %s %s)", e.allocArr(st), term))
 	case *types.Interface:
+		e.assume(fmt.Sprintf("(iface.wf %s)", term))
 		e.assume(fmt.Sprintf("(=> ((_ is iface.ref) %s) (select %s (ifr.v %s)))", term, e.allocArr(st), term))
 		e.assume(fmt.Sprintf("(=> ((_ is iface.ref) %s) (not (= (ifr.v %s) null)))", term, term))
 		e.assume(fmt.Sprintf("(=> ((_ is iface.slice) %s) (slice.wf (ifl.v %s)))", term, term))
@@ -844,7 +845,7 @@ func (e *Enc) leaveLoop(from *ssa.BasicBlock, li *loopInfo, st *State) {
 
 func (e *Enc) strConst(s string) string {
 	if s == "" {
-		return "str.empty"
+		return "gs.empty"
 	}
 	if n, ok := e.strConsts[s]; ok {
 		return n
@@ -852,10 +853,10 @@ func (e *Enc) strConst(s string) string {
 	n := q(fmt.Sprintf("str:%d:%s", len(e.strConsts), s))
 	e.strConsts[s] = n
 	e.declare(n, "Str")
-	e.assume(fmt.Sprintf("(= (str.len %s) %s)", n, e.st.idxLit(int64(len(s)))))
+	e.assume(fmt.Sprintf("(= (gs.len %s) %s)", n, e.st.idxLit(int64(len(s)))))
 	if len(s) <= 48 {
 		for i := 0; i < len(s); i++ {
-			e.assume(fmt.Sprintf("(= (str.at %s %s) %s)", n, e.st.idxLit(int64(i)), e.st.byteLit(int64(s[i]))))
+			e.assume(fmt.Sprintf("(= (gs.at %s %s) %s)", n, e.st.idxLit(int64(i)), e.st.byteLit(int64(s[i]))))
 		}
 	}
 	return n
